@@ -24,26 +24,27 @@ class SeismicZfpBackendArray(BackendArray):
         )
 
     def _raw_indexing_method(self, key: tuple) -> np.typing.ArrayLike:
+        # Basic indexing: every element of key is an integer (that axis is dropped) or a slice (possibly stepped).
+        # Read the bounding box of the request, then apply steps and drop integer-indexed axes.
+        bounds, selection = [], []
+        for k, n in zip(key, self.shape):
+            if isinstance(k, slice):
+                start, stop, step = k.indices(n)
+                bounds.append((start, stop))
+                selection.append(slice(None, None, step))
+            else:
+                k = k + n if k < 0 else k
+                bounds.append((k, k + 1))
+                selection.append(0)
 
-        min_il = key[0].start if isinstance(key[0], slice) else key[0]
-        min_xl = key[1].start if isinstance(key[1], slice) else key[1]
-        min_z = key[2].start if isinstance(key[2], slice) else key[2]
-
-        min_il = 0 if min_il is None else min_il
-        min_xl = 0 if min_xl is None else min_xl
-        min_z = 0 if min_z is None else min_z
-
-        max_il = key[0].stop if isinstance(key[0], slice) else key[0] + 1
-        max_xl = key[1].stop if isinstance(key[1], slice) else key[1] + 1
-        max_z = key[2].stop if isinstance(key[2], slice) else key[2] + 1
-
-        max_il = self.sgz_reader.n_ilines if max_il is None else max_il
-        max_xl = self.sgz_reader.n_xlines if max_xl is None else max_xl
-        max_z = self.sgz_reader.n_samples if max_z is None else max_z
+        (min_il, max_il), (min_xl, max_xl), (min_z, max_z) = bounds
+        if min(max_il - min_il, max_xl - min_xl, max_z - min_z) <= 0:
+            # Empty selection: nothing to read
+            return np.zeros(tuple(max(b[1] - b[0], 0) for b in bounds), dtype=self.dtype)[tuple(selection)]
 
         return self.sgz_reader.read_subvolume(min_il=min_il, max_il=max_il,
                                               min_xl=min_xl, max_xl=max_xl,
-                                              min_z=min_z,   max_z=max_z)
+                                              min_z=min_z,   max_z=max_z)[tuple(selection)]
 
 
 class SeismicZfpBackendEntrypoint(BackendEntrypoint):
